@@ -80,6 +80,8 @@ def seeded(args):
     items = []
     for d in sorted(glob.glob(os.path.join(base, 'seeded', '*', 'meta.json'))):
         meta = json.load(open(d))
+        if 'superseded' in meta:
+            continue        # a later fix: commit took the ground from under this change (see meta.json)
         items.append((meta['name'], os.path.join(os.path.dirname(d), 'patch.diff'), meta['breaks_property']))
     for p in sorted(glob.glob(os.path.join(base, 'mutants', '*.patch'))):
         name = os.path.basename(p)[:-6]
